@@ -184,6 +184,44 @@ func extractMuxBroker(p *pkgs, f *facts) {
 			}
 		}
 	}
+	// the failed header read: `if err := binary.Read(stream, …); err != nil { …; continue }` directly in Run's loop
+	hdrContinues := false
+	if run != nil {
+		ast.Inspect(run.Body, func(n ast.Node) bool {
+			fs, ok := n.(*ast.ForStmt)
+			if !ok {
+				return true
+			}
+			for _, st := range fs.Body.List {
+				is, ok := st.(*ast.IfStmt)
+				if !ok || is.Init == nil || !strings.Contains(stmtCalls(is.Init), "binary.Read(") {
+					continue
+				}
+				leaves := false
+				ast.Inspect(is.Body, func(m ast.Node) bool {
+					switch y := m.(type) {
+					case *ast.ReturnStmt:
+						leaves = true
+					case *ast.BranchStmt:
+						if y.Tok.String() != "continue" || y.Label != nil {
+							leaves = true
+						}
+					case *ast.CallExpr:
+						if exprString(y.Fun) == "panic" {
+							leaves = true
+						}
+					}
+					return true
+				})
+				if n := len(is.Body.List); n > 0 && !leaves {
+					if br, ok := is.Body.List[n-1].(*ast.BranchStmt); ok && br.Tok.String() == "continue" {
+						hdrContinues = true
+					}
+				}
+			}
+			return false
+		})
+	}
 	acc := p.fn("MuxBroker", "Accept")
 	asels, _ := selectsOf(p, acc)
 	for _, si := range asels {
@@ -192,10 +230,10 @@ func extractMuxBroker(p *pkgs, f *facts) {
 		}
 	}
 	cap := chanCap(p, p.fn("MuxBroker", "getStream"), "ch")
-	f.lean = append(f.lean, fmt.Sprintf("def muxBroker : MuxBroker.Params := ⟨%s, %s, %s, %d, %d, %d⟩",
-		leanBool(hasDefault), leanBool(drainsAlways), leanBool(runCloses), max64(cap, 0), acceptWin, expiryWin))
+	f.lean = append(f.lean, fmt.Sprintf("def muxBroker : MuxBroker.Params := ⟨%s, %s, %s, %s, %d, %d, %d⟩",
+		leanBool(hasDefault), leanBool(drainsAlways), leanBool(runCloses), leanBool(hdrContinues), max64(cap, 0), acceptWin, expiryWin))
 	f.set("muxBroker", map[string]interface{}{"expiryRecvHasDefault": hasDefault, "expiryDrainsAlways": drainsAlways,
-		"runClosesDropped": runCloses, "slotCap": cap, "acceptWindowMs": acceptWin, "expiryWindowMs": expiryWin})
+		"runClosesDropped": runCloses, "headerErrorContinues": hdrContinues, "slotCap": cap, "acceptWindowMs": acceptWin, "expiryWindowMs": expiryWin})
 }
 
 func max64(a, b int64) int64 {
